@@ -1289,6 +1289,25 @@ def check_digests(prop, tier, seed):
         if len(variants) > 1:
             for _ in range(10 if tier == "quick" else 100):
                 add("digest_variants", fam, {v: tmpl.replace("VAR", v).format(".x") for v in variants}, {"x": lb(rb(rnd.randint(0, 40)))})
+    XX = {"XXH32": "x32", "XXH64": "x64", "XXH3-64": "x3"}
+    for v in list(XX) + ["XXH3-128"]:
+        add("xx_vector", f"xxhash({v})", {"out": f'xxhash!(.x, variant: "{v}")'}, {"variant": v, "x": lb(b"")})
+    for _ in range(40 if tier == "quick" else 600):
+        x = rb(rnd.randint(0, 100))
+        y = list(x)
+        if rnd.random() < 0.15:
+            pass
+        elif y and rnd.random() < 0.8:
+            y[rnd.randrange(len(y))] ^= 1 << rnd.randrange(8)
+        else:
+            y = y + [0]
+        ex = {}
+        for suffix, fld in (("", ".x"), ("_y", ".y")):
+            for v, nm in XX.items():
+                ex[nm + suffix] = f'xxhash!({fld}, variant: "{v}")'
+            ex["x128" + suffix] = f'xxhash!({fld}, variant: "XXH3-128")'
+            ex["sea" + suffix] = f"seahash!({fld})"
+        add("hash_laws", "xxhash/seahash", ex, {"x": lb(x), "y": lb(y)})
     rnd.shuffle(cases)
     log(f"[{prop}] {len(cases)} digest cases ({time.time()-t0:.0f}s)")
     cpath = os.path.join(wd, "cases.ndjson")
@@ -1322,7 +1341,7 @@ def check_digests(prop, tier, seed):
         "model_self_checks_against_published_values": cnt.get("published", 0), "instances_per_law": by,
     }
     assumptions = ["CRC parameters and check values are the published catalogue's (transcribed into Crc.tla from the crc-catalog data)",
-                   "md5, sha1, sha2, sha3 have no model here beyond published vectors and shape/distinctness laws; xxhash and seahash are not decided",
+                   "md5, sha1, sha2, sha3, xxhash have no model here beyond published vectors and shape/distinctness laws; seahash only the laws",
                    "hmac with keys longer than the block (hashed first) is not covered by the definitional law"]
     mine = [v for v in agg["viols"] if v["prop"] == prop]
     return verdict(prop, tier, seed, "exploration", coverage, mine, assumptions, t0, replay_writer)
